@@ -18,11 +18,30 @@
   * `block_count` (N counts every header, also those beyond the caller's array), `block_stored` (the stored
     headers are the headers of the block, in order), `block_flags` (a type flag is set iff a header of that type was
     seen), `block_first_of_type` (the first-of-type table holds the first header of each type).
-  NOT proved here: the same statement for the eight header types with dedicated value parsers when a values
-  object is supplied (their `Val` is produced by the value parser, see C09); they are decided by the
-  tokenisation oracle on generated blocks and by the correspondence.
+  With a values object supplied, the eight header types with dedicated value parsers (`Sipsp.Proofs.HdrTyped`):
+  * `typed_from`, `typed_to`, `typed_callid`, `typed_cseq`, `typed_clen`, `typed_expires`, `typed_contact`,
+    `typed_pai`: for ANY text after the colon, ParseHdrLine returns the verdict and offset of the value parser started
+    after the colon; the header has the name as written and the classified type, is finished with `Val` = the value
+    parser's reported span iff the verdict is OK; the values object changes in that one component only (Contact /
+    PAI: header counter bumped, running extent cleared).
+  * `from_value`, `to_value` (C09 grammar: `Val` = the name-addr value from its first non-white-space byte to where
+    its terminator begins), `callid_value` (one run of non-white-space bytes), `expires_value`, `clen_value` (digit
+    string, number exact, within the documented ranges), `cseq_value` (digits, white space, method token: `Val` from
+    the first digit to the end of the method), `contact_values_line`, `pai_values_line` (comma-separated value list:
+    `Val` from the start of the first value to the end of the last one, for any capacity and for objects that already
+    hold values of earlier lines).
+  * `generic_with_values`: types without a value parser, and repeated single-valued headers whose value is already
+    parsed, are scanned generically also when a values object is supplied.
+  * `typed_block`: ParseHeaders on a block that mixes generic and typed lines (each typed value meeting its grammar)
+    reports one header per line in order, the values object threaded through the typed lines.
+  Observed while proving (not a violation for well-formed blocks: the values are not valid for their header type):
+  with a values object an EMPTY Call-ID / Contact / Content-Length value, `i: a b`, a ten-digit Content-Length are
+  rejected by the value parser although the generic scanner (no values object) accepts the line.
+  NOT proved here: typed lines whose single-valued component is suspended mid-value (resumption is C02), Contact `*`
+  inside a header line, general rejection results for typed values.
 -/
 import Sipsp.Proofs.HdrSpec
+import Sipsp.Proofs.HdrTyped
 
 namespace Sipsp.C07
 open Sipsp
@@ -111,5 +130,57 @@ example : HdrLineAt "a:b\r\nX".toUTF8.data 0 5 (hdrAt (getHdrType ("a:b\r\nX".to
     subst this
     exact ⟨98, by decide, by decide⟩
   · exact Eol.crlf 3 (by decide) (by decide)
+
+/-! ### the eight header types with dedicated value parsers, values object supplied (proved in `Sipsp.Proofs.HdrTyped`) -/
+
+theorem typed_from : type_of% @Sipsp.ht_line_from := @Sipsp.ht_line_from
+
+theorem typed_to : type_of% @Sipsp.ht_line_to := @Sipsp.ht_line_to
+
+theorem typed_callid : type_of% @Sipsp.ht_line_callid := @Sipsp.ht_line_callid
+
+theorem typed_cseq : type_of% @Sipsp.ht_line_cseq := @Sipsp.ht_line_cseq
+
+theorem typed_clen : type_of% @Sipsp.ht_line_clen := @Sipsp.ht_line_clen
+
+theorem typed_expires : type_of% @Sipsp.ht_line_expires := @Sipsp.ht_line_expires
+
+theorem typed_contact : type_of% @Sipsp.ht_line_contact := @Sipsp.ht_line_contact
+
+theorem typed_pai : type_of% @Sipsp.ht_line_pai := @Sipsp.ht_line_pai
+
+/-- **From**: name, colon, a name-addr value of the C09 grammar (leading linear white space included) ending with
+    the line end; new From object. The header's value is the value span of the name-addr value. -/
+theorem from_value : type_of% @Sipsp.ht_from_value := @Sipsp.ht_from_value
+
+/-- **To** -/
+theorem to_value : type_of% @Sipsp.ht_to_value := @Sipsp.ht_to_value
+
+/-- **Call-ID**: name, colon, a Call-ID value; new Call-ID object. The header's value is the run `[v, j)`. -/
+theorem callid_value : type_of% @Sipsp.ht_callid_value := @Sipsp.ht_callid_value
+
+/-- **Expires**: name, colon, digits; new object. The header's value is the digit string, the number its value. -/
+theorem expires_value : type_of% @Sipsp.ht_expires_value := @Sipsp.ht_expires_value
+
+/-- **Content-Length**: name, colon, at most 9 digits with a value of at most 2^24; new object -/
+theorem clen_value : type_of% @Sipsp.ht_clen_value := @Sipsp.ht_clen_value
+
+/-- **CSeq**: name, colon, a CSeq value; new object. The header's value runs from the number through the method. -/
+theorem cseq_value : type_of% @Sipsp.ht_cseq_value := @Sipsp.ht_cseq_value
+
+/-- **Contact**: name, colon, a comma-separated list of name-addr values of the C09 grammar ending with the line end.
+    The header's value runs from the start of the first value to the end of the last one (`htSpan`, see
+    `ht_lhv_line`); the contacts object is `htLine` of the old one: header counter bumped, values accepted in order. -/
+theorem contact_values_line : type_of% @Sipsp.ht_contact_values := @Sipsp.ht_contact_values
+
+/-- **P-Asserted-Identity**: as `ht_contact_values` -/
+theorem pai_values_line : type_of% @Sipsp.ht_pai_values := @Sipsp.ht_pai_values
+
+/-- a header line with a value, scanned generically although a values object is supplied -/
+theorem generic_with_values : type_of% @Sipsp.ht_line_gen := @Sipsp.ht_line_gen
+
+/-- **ParseHeaders on a well-formed block with a values object**: one header per line, in order (generic and typed
+    lines mixed), the values object as left by the typed lines, then the end of the block -/
+theorem typed_block : type_of% @Sipsp.ht_parseHeaders_block := @Sipsp.ht_parseHeaders_block
 
 end Sipsp.C07
